@@ -1370,3 +1370,161 @@ package connect
 //@   ensures callres("(*grpcUnmarshaler).Unmarshal", 1) == nil ==> err == nil                          // label: a-decoded-message-is-delivered
 //@   ensures err != nil && Is(err, io.EOF) ==> (called("grpcErrorFromTrailer", 1) && (callres("grpcErrorFromTrailer", 1) == nil || err == callres("grpcErrorFromTrailer", 1))) || callres("(http.Header).Get", 1) != ""   // label: clean-end-only-with-grpc-status-in-trailers-or-headers
 //@   ensures err != nil ==> coded(err)                                                                  // label: errors-are-coded
+
+// ---------------------------------------------------------------------------
+// handler.go: what the typed handler wrappers hand to user code (C12: the
+// Spec and the request headers user code sees are those of the connection the
+// dispatcher established; C11: the headers/trailers of a response are merged
+// into the connection's before the message is sent)
+// ---------------------------------------------------------------------------
+
+//@ trusted func StreamingHandlerConn.Spec(c) res
+//@   pure
+//@ trusted func StreamingHandlerConn.RequestHeader(c) res
+//@   pure
+//@ trusted func StreamingHandlerConn.ResponseHeader(c) res
+//@   pure
+//@   ensures res != nil
+//@ trusted func StreamingHandlerConn.ResponseTrailer(c) res
+//@   pure
+//@   ensures res != nil
+//@ trusted func StreamingHandlerConn.Receive(c, msg) err
+//@   assigns everything
+//@ trusted func StreamingHandlerConn.Send(c, msg) err
+//@   assigns everything
+
+// user code (the typed implementation): may do anything
+//@ trusted func NewServerStreamHandler$1.implementation(ctx, request, stream) err
+//@   assigns everything
+//@ func NewServerStreamHandler$1(ctx, conn) err
+//@   tags C12, C11
+//@   requires conn != nil && deref(implementation) != nil
+//@   assigns everything
+//@   assert@call(NewServerStreamHandler$1.implementation#1): arg1 != nil && arg1.spec.Procedure == callres("StreamingHandlerConn.Spec", 1).Procedure && arg1.spec.StreamType == callres("StreamingHandlerConn.Spec", 1).StreamType && arg1.spec.IsClient == callres("StreamingHandlerConn.Spec", 1).IsClient   // label: user-code-sees-the-spec-of-the-connection
+//@   assert@call(NewServerStreamHandler$1.implementation#1): arg1.header == callres("StreamingHandlerConn.RequestHeader", 1) && arg2 != nil && arg2.conn == conn   // label: user-code-sees-the-request-headers-and-the-connection
+
+//@ trusted func NewUnaryHandler$2.untyped(ctx, request) (res, err)
+//@   assigns everything
+//@   ensures err == nil ==> res != nil
+//@   doc: "the interceptor-wrapped unary function: user code; a nil error comes with a response (the typed wrapper returns what the implementation returns; a nil response with a nil error is a bug in user code and panics today)"
+//@ trusted func AnyResponse.Header(r) res
+//@   pure
+//@ trusted func AnyResponse.Trailer(r) res
+//@   pure
+//@ trusted func AnyResponse.Any(r) res
+//@   pure
+//@ func NewUnaryHandler$2(ctx, conn) err
+//@   tags C12, C11
+//@   requires conn != nil && deref(untyped) != nil
+//@   assigns everything
+//@   assert@call(NewUnaryHandler$2.untyped#1): typeis(arg1, "*Request") && (let r := cast(arg1, "*Request") in r.spec.Procedure == callres("StreamingHandlerConn.Spec", 1).Procedure && r.spec.StreamType == callres("StreamingHandlerConn.Spec", 1).StreamType && r.spec.IsClient == callres("StreamingHandlerConn.Spec", 1).IsClient && r.header == callres("StreamingHandlerConn.RequestHeader", 1))   // label: user-code-sees-the-spec-and-request-headers-of-the-connection
+//@   assert@call(mergeHeaders#1): arg0 == callres("StreamingHandlerConn.ResponseHeader", 1) && arg1 == callres("AnyResponse.Header", 1)   // label: response-headers-merged-into-the-connection's   // tags: C11
+//@   assert@call(mergeHeaders#2): arg0 == callres("StreamingHandlerConn.ResponseTrailer", 1) && arg1 == callres("AnyResponse.Trailer", 1)   // label: response-trailers-merged-into-the-connection's   // tags: C11
+//@   assert@call(StreamingHandlerConn.Send#1): arg1 == callres("AnyResponse.Any", 1) && called("mergeHeaders", 2)   // label: message-sent-after-headers-and-trailers-are-merged   // tags: C11
+
+//@ trusted func NewClientStreamHandler$1.implementation(ctx, stream) (res, err)
+//@   assigns everything
+//@   ensures err == nil ==> res != nil
+//@ func NewClientStreamHandler$1(ctx, conn) err
+//@   tags C12, C11
+//@   requires conn != nil && deref(implementation) != nil
+//@   assigns everything
+//@   assert@call(NewClientStreamHandler$1.implementation#1): arg1 != nil && arg1.conn == conn   // label: user-code-gets-the-connection
+//@   assert@call(mergeHeaders#1): arg0 == callres("StreamingHandlerConn.ResponseHeader", 1) && arg1 == callres("NewClientStreamHandler$1.implementation", 1, 0).header   // label: response-headers-merged-into-the-connection's
+//@   assert@call(mergeHeaders#2): arg0 == callres("StreamingHandlerConn.ResponseTrailer", 1) && arg1 == callres("NewClientStreamHandler$1.implementation", 1, 0).trailer   // label: response-trailers-merged-into-the-connection's
+//@   assert@call(StreamingHandlerConn.Send#1): called("mergeHeaders", 2)   // label: message-sent-after-headers-and-trailers-are-merged
+
+//@ trusted func NewBidiStreamHandler$1.implementation(ctx, stream) err
+//@   assigns everything
+//@ func NewBidiStreamHandler$1(ctx, conn) err
+//@   tags C12
+//@   requires conn != nil && deref(implementation) != nil
+//@   assigns everything
+//@   assert@call(NewBidiStreamHandler$1.implementation#1): arg1 != nil && arg1.conn == conn   // label: user-code-gets-the-connection
+
+// ---------------------------------------------------------------------------
+// protocol_grpc.go: where the client finds gRPC trailers (C03, C04)
+// ---------------------------------------------------------------------------
+
+// net/http: "Trailer maps trailer keys to values ... only populated after
+// Body.Read has returned io.EOF" - so the HTTP trailers of a response are its
+// wire trailers only once the body has been read to its end, however the
+// transport delivered it. wireTrailers(c): the trailers the peer sent.
+//@ spec wireTrailers(c ref) ref
+//@ trusted func (*duplexHTTPCall).ResponseTrailer(d) res
+//@   requires d != nil
+//@   assigns nothing
+//@   ensures res != nil
+//@   ensures rest(d) == [] ==> res == wireTrailers(d)
+//@   doc: "http.Response.Trailer: complete only after the body has been read to io.EOF (net/http documentation)"
+//@ trusted func discard(reader) err
+//@   requires reader != nil
+//@   assigns rest(reader)
+//@   ensures |old(rest(reader))| <= 4194304 ==> rest(reader) == []
+//@   ensures |old(rest(reader))| > 4194304 ==> rest(reader) == old(rest(reader))[4194304:]
+//@   doc: "io.Copy(io.Discard, &io.LimitedReader{R: reader, N: discardLimit}): reads up to 4 MiB and throws them away (body: stdlib plumbing, trusted)"
+//@ func (*grpcClient).NewConn$2(u, call) res
+//@   tags C03, C04, C06
+//@   requires call != nil
+//@   assigns rest(call)
+//@   ensures res != nil
+//@   ensures |old(rest(call))| <= 4194304 ==> res == wireTrailers(call)   // label: http-trailers-are-read-after-draining-the-body
+
+// ---------------------------------------------------------------------------
+// C02: the error carriers of the Connect protocol (sender side)
+// ---------------------------------------------------------------------------
+
+// jsonOf(v): the JSON text encoding/json produces for the value v points to
+// (for *connectWireError through its MarshalJSON).
+//@ spec jsonOf(v ref) seq
+//@ trusted func json.Marshal(v) (res, err)
+//@   assigns nothing
+//@   ensures err == nil ==> seq(res) == jsonOf(v) && |res| < 4294967296
+//@   doc: "Marshal returns the JSON encoding of v (a function of the value; the encoding itself is not modelled). Assumed: the encoded error / end-of-stream message is shorter than 4 GiB (the envelope length field is 32 bits; larger payloads are outside every contract here)."
+//@ trusted func http.ResponseWriter.Write(w, p) (n, err)
+//@   assigns rwstatus(w), out(w)
+//@   ensures old(rwstatus(w)) == 0 ==> rwstatus(w) == 200
+//@   ensures old(rwstatus(w)) != 0 ==> rwstatus(w) == old(rwstatus(w))
+//@   ensures err == nil ==> out(w) == old(out(w)) ++ seq(p)
+//@   doc: "Write writes the data to the connection as part of an HTTP reply. If WriteHeader has not yet been called, Write calls WriteHeader(http.StatusOK) before writing the data."
+//@ trusted func io.ReadCloser.Close(c) err
+//@   assigns nothing
+//@   doc: "closing the request body has no effect on the modelled state"
+
+// Unary: a failed call has a 4xx/5xx status chosen from the error's code, a
+// JSON body that is the wire form of the error itself (a plain error is
+// wrapped as code unknown), and the error's metadata in the headers.
+//@ func (*connectUnaryHandlerConn).Close(hc, err) res
+//@   tags C02, C05
+//@   requires hc != nil && hc.responseWriter != nil && hdrOf(hc.responseWriter) != nil && hc.request != nil && hc.request.Body != nil
+//@   requires hdrOf(hc.responseWriter) != hc.responseTrailer && (err != nil && coded(err) ==> asErr(err).meta != hdrOf(hc.responseWriter))
+//@   assigns everything
+//@   ensures err != nil && old(rwstatus(hc.responseWriter)) == 0 ==> 400 <= rwstatus(hc.responseWriter) && rwstatus(hc.responseWriter) <= 599   // label: a-failed-unary-call-never-has-a-2xx-status
+//@   assert@call(http.ResponseWriter.WriteHeader#1): arg1 == callres("connectCodeToHTTP", 1) && (coded(err) ==> callres("CodeOf", 1) == codeOf(err)) && (!coded(err) ==> callres("CodeOf", 1) == 2)   // label: status-derived-from-the-error's-code
+//@   assert@call(json.Marshal#1): coded(err) ==> boxed(arg0) == asErr(err)   // label: body-is-the-wire-form-of-the-error-itself
+//@   assert@call(json.Marshal#1): !coded(err) ==> boxed(arg0) != nil && fresh(boxed(arg0)) && cast(boxed(arg0), "*Error").code == 2 && cast(boxed(arg0), "*Error").err == err   // label: plain-error-is-sent-as-unknown-with-its-text
+//@   assert@call(http.ResponseWriter.Write#1): seq(arg1) == seq(callres("json.Marshal", 1, 0))   // label: body-is-the-marshalled-error
+//@   assert@call(http.ResponseWriter.Write#1): called("http.ResponseWriter.WriteHeader", 1)   // label: status-precedes-the-body
+
+// Streaming: the end-of-stream envelope (flag 0x02) carries the wire form of
+// the error itself (a plain error as code unknown) and the trailers with the
+// error's metadata appended under its keys.
+//@ func (*connectStreamingMarshaler).MarshalEndStream(m, err, trailer) res
+//@   tags C02, C05, C11
+//@   requires m != nil && envOK(m.envelopeWriter)
+//@   requires err != nil && coded(err) ==> trailer != nil && asErr(err).meta != trailer
+//@   assigns out(m.envelopeWriter.writer), mapof(trailer), mapvals(trailer)
+//@   assert@call(json.Marshal#1): let e := cast(arg0, "*connectEndStreamMessage") in e.Trailer == trailer && (err == nil ==> e.Error == nil) && (err != nil && coded(err) ==> e.Error == asErr(err)) && (err != nil && !coded(err) ==> e.Error != nil && fresh(e.Error) && e.Error.code == 2 && e.Error.err == err)   // label: end-of-stream-message-carries-the-error-itself-and-the-trailers
+//@   ensures err != nil && coded(err) ==> (forall k seq :: {mapval(trailer, k)} mapdom(asErr(err).meta, k) ==> mapdom(trailer, k) && mapval(trailer, k) == old(rawvals(trailer, k)) ++ mapval(asErr(err).meta, k))   // label: error-metadata-appended-to-the-trailers
+//@   ensures !(err != nil && coded(err)) ==> (forall k seq :: {mapval(trailer, k)} mapdom(trailer, k) == old(mapdom(trailer, k)) && mapval(trailer, k) == old(mapval(trailer, k)))   // label: trailers-untouched-otherwise
+//@   ensures res == nil ==> (let D := seq(callres("json.Marshal", 1, 0)) in appendsFrame(out(m.envelopeWriter.writer), old(out(m.envelopeWriter.writer)), 2, D) || (m.envelopeWriter.compressionPool != nil && appendsFrame(out(m.envelopeWriter.writer), old(out(m.envelopeWriter.writer)), 3, compBy(m.envelopeWriter.compressionPool.compressors, D))))   // label: exactly-one-envelope-flagged-end-of-stream   // tags: C05, C04
+//@   ensures res != nil ==> coded(res)
+
+//@ constfield connectStreamingHandlerConn.request, connectStreamingHandlerConn.responseWriter, connectStreamingHandlerConn.responseTrailer
+//@ func (*connectStreamingHandlerConn).Close(hc, err) res
+//@   tags C02, C05
+//@   requires hc != nil && hc.responseWriter != nil && hc.request != nil && hc.request.Body != nil && envOK(hc.marshaler.envelopeWriter)
+//@   requires err != nil && coded(err) ==> hc.responseTrailer != nil && asErr(err).meta != hc.responseTrailer
+//@   assigns everything
+//@   assert@call((*connectStreamingMarshaler).MarshalEndStream#1): arg1 == err && arg2 == hc.responseTrailer   // label: the-handler's-error-and-trailers-go-into-the-end-of-stream-message
+//@   ensures res != nil ==> coded(res)
